@@ -670,6 +670,8 @@ class _FullTransport(_ReadTransport):  # asyncio.Transport
             return len(transmit_times)
 
         duration: float = (transmit_times[-1] - transmit_times[0]) / td(seconds=1)
+        if duration <= 0:  # e.g. the (naive, local) wall clock was stepped back
+            return len(transmit_times)
         return int(len(transmit_times) / duration * 6000) / 100
 
     def _track_transmit_rate(self) -> None:
